@@ -8,7 +8,7 @@ def run(run):
     run.rule = ('contexts as C03 (object labels chosen so that label order differs from positional order); the model sorts the '
                 'implementation\'s own extents: iteration order, index, dindex, infimum/supremum, atoms, order inside neighbor tuples')
     d = run.driver
-    for tab, pc in lat.contexts(run, exh_quick=9, rand_quick=400, wide_quick=40, exh_thorough=12, nmax=10, mmax=9):
+    for tab, pc in lat.contexts(run, exh_quick=10, rand_quick=500, wide_quick=40, exh_thorough=14, nmax=10, mmax=9):
         if min(pc.n, pc.m) > 12:
             continue
         extra = {'objects': pc.objects, 'properties': pc.properties, 'bools': pc.bools}
